@@ -1048,10 +1048,9 @@ func (tr *Tr) atCallAsserts(fr *Frame, site ssa.Instruction, sf *ssa.Function, c
 		}
 		matched = true
 		env := tr.envFor(fr, nil, fr.st)
-		for i, p := range sf.Params {
-			env.vars["arg"+fmt.Sprint(i)] = EVal{V: args[i], T: p.Type()}
-			if _, shadow := env.vars[p.Name()]; !shadow {
-				env.vars["@"+p.Name()] = EVal{V: args[i], T: p.Type()}
+		for i := range args {
+			if i < len(c.Args) {
+				env.vars["arg"+fmt.Sprint(i)] = EVal{V: args[i], T: c.Args[i].Type()}
 			}
 		}
 		for i, a := range ac.Asserts {
